@@ -1064,10 +1064,19 @@ class TrackByName(Harness):
             for runs in runsets + ([[0, 0, 1]] if tier == "thorough" and g == "g2" else []):
                 for prior in (False, True):
                     out.append(dict(genome=g, runs=runs, prior=prior))
+        # the array assembled from a dict of per-chromosome arrays whose key order is / is not the genome order
+        for g in ("g2", "g3"):
+            for order in ("genome", "reversed"):
+                out.append(dict(genome=g, from_dict=order))
         return out
 
     def inputs(self, skel, V):
         from checks.C09 import GENOMES as G9, declare_track
+        if skel.get("from_dict"):
+            for nm, size in G9[skel["genome"]].items():
+                for p in range(size):
+                    V.int(f"d_{nm}_{p}", 0, 2)
+            return
         declare_track(V, skel["runs"], list(G9[skel["genome"]].values()), "a")
 
     def call(self, skel, x, ctx):
@@ -1075,6 +1084,13 @@ class TrackByName(Harness):
         from bionumpy.datatypes import BedGraph
         from checks.C09 import GENOMES as G9, make_track
         genome = G9[skel["genome"]]
+        if skel.get("from_dict"):
+            from bionumpy.arithmetics.intervals import GenomicRunLengthArray
+            from bionumpy.genomic_data.genomic_track import GenomicArrayGlobal
+            names = list(genome)[::-1] if skel["from_dict"] == "reversed" else list(genome)
+            d = {nm: GenomicRunLengthArray.from_array(ctx.arr([x[f"d_{nm}_{p}"] for p in range(genome[nm])], "int64")) for nm in names}
+            A = GenomicArrayGlobal.from_dict(d, bnp.Genome.from_dict(dict(genome))._genome_context)
+            return dict(dense={nm: ctx.lst(v) for nm, v in A.to_dict().items()})
         if skel["prior"]:
             other = bnp.Genome.from_dict({"chr1": 5, "chr2": 4, "chr10": 2})
             t0 = other.get_track(BedGraph(["chr1", "chr2", "chr10"], [1, 0, 0], [5, 3, 2], [7, 8, 9]))
@@ -1088,7 +1104,9 @@ class TrackByName(Harness):
             return False
         from checks.C09 import GENOMES as G9, dense_terms
         genome = G9[skel["genome"]]
-        exp = dense_terms(x, skel["runs"], genome, "a")
+        exp = {nm: [x[f"d_{nm}_{p}"].t for p in range(genome[nm])] for nm in genome} if skel.get("from_dict") else dense_terms(x, skel["runs"], genome, "a")
+        if list(out["dense"]) != list(genome):
+            return False
         conj = []
         for nm in genome:
             if len(out["dense"][nm]) != genome[nm]:
@@ -1101,6 +1119,11 @@ class TrackByName(Harness):
             return f"track[name] raised {cout}"
         from checks.C09 import GENOMES as G9, dense_py
         genome = G9[skel["genome"]]
+        if skel.get("from_dict"):
+            exp = {nm: [cx[f"d_{nm}_{p}"] for p in range(genome[nm])] for nm in genome}
+            got = {nm: [int(v) for v in col] for nm, col in cout["dense"].items()}
+            return None if got == exp else (f"GenomicArray.from_dict on genome {genome} from per-chromosome arrays given in {skel['from_dict']} key order: "
+                                            f"{got}, the arrays are {exp}")
         exp = dense_py(cx, skel["runs"], genome, "a")
         got = {nm: [int(v) for v in col] for nm, col in cout["dense"].items()}
         return None if got == exp else (f"track over {genome}{' (after a track over another genome with the same names was indexed by name)' if skel['prior'] else ''}: "
